@@ -39,6 +39,7 @@ func checkC12(c *Check) {
 		rtSentinel(a, v)
 		rtRepublish(a, v)
 		rtUGeneric(a, v)
+		rtUOffsets(a, v)
 		// the published token list must end at tokenIndex: the tail of a reused buffer holds an earlier input's tokens
 		rtTokens(a, v)
 		if rtEvalHere(v) {
